@@ -54,7 +54,36 @@ def permute(X, how, rng):
     return X[rng.permutation(n)].copy()
 
 
-def run(name, params, batches, key, frames=None):
+class _Rec:
+    last = None
+
+
+def _recording_partitioner():
+    import menelaus.data_drift.nndvi as nndvi_mod
+    from menelaus.partitioners import NNSpacePartitioner
+
+    class Rec(NNSpacePartitioner):
+        def build(self, sample1, sample2):
+            super().build(sample1, sample2)
+            _Rec.last = self
+
+    return nndvi_mod, NNSpacePartitioner, Rec
+
+
+def run(name, params, batches, key, frames=None, as_object=False):
+    if name == "NNDVI":
+        # the NN-DVI distance is not published by the detector: it is read off the partitioner the detector builds in each update
+        nndvi_mod, orig, Rec = _recording_partitioner()
+        if hasattr(nndvi_mod, "NNSpacePartitioner"):
+            nndvi_mod.NNSpacePartitioner = Rec
+            try:
+                return _run(name, params, batches, key, frames, as_object)
+            finally:
+                nndvi_mod.NNSpacePartitioner = orig
+    return _run(name, params, batches, key, frames, as_object)
+
+
+def _run(name, params, batches, key, frames=None, as_object=False):
     """frames: None (ndarrays) or a list of index arrays - batch i is then handed over as a DataFrame carrying those row labels
     (a shuffled frame keeps its labels, e.g. after df.sample(frac=1))"""
     import pandas as pd
@@ -69,7 +98,12 @@ def run(name, params, batches, key, frames=None):
                 det.set_reference(arg)
             else:
                 det.update(arg)
+        elif as_object:
+            # the same numbers in an object-dtype array: whole numbers as Python ints, the others as Python floats
+            arg = np.array([[int(v) if float(v).is_integer() else float(v) for v in r] for r in np.asarray(X).tolist()], dtype=object)
+            zoo.feed(det, name, arg, first=(i == 0))
         else:
+            _Rec.last = None
             zoo.feed(det, name, X, first=(i == 0))
         o = {"state": det.drift_state}
         if name in ("HDDDM", "CDBD"):
@@ -82,6 +116,10 @@ def run(name, params, batches, key, frames=None):
                 o["counts"] = None
         elif name == "NNDVI":
             o["reference"] = sorted(map(tuple, np.asarray(det.reference_batch).tolist()))
+            p_ = _Rec.last
+            if i > 0 and p_ is not None:
+                o["nndvi_distance"] = zoo.fl(type(p_).compute_nnps_distance(p_.nnps_matrix, p_.v1, p_.v2))
+            _Rec.last = None
         out.append(o)
     return out
 
@@ -110,6 +148,19 @@ def run_case(case, ctx):
             sc_ = float(np.std(np.vstack(batches))) or 1.0
             batches = [np.round(b / sc_ * 4) / 4 * sc_ for b in batches]
         ctx.count("histories_ordered_by_a_feature")
+    as_object = False
+    if name == "NNDVI" and rng.random() < 0.3:
+        # readings on a decimal grid around zero: exact distance ties between neighbours, sums that are inexact in binary
+        g_ = float(rng.choice([0.1, 0.1, 0.5]))
+        cand = [np.round(b / g_) * g_ for b in batches]
+        if len(np.unique(np.vstack(cand[:2]), axis=0)) >= 8:
+            batches = cand
+            ctx.count("nndvi_histories_on_a_decimal_grid")
+    if name != "NNDVI" and not as_frames and rng.random() < 0.15:
+        # object-dtype batches holding Python ints and floats (a column read from mixed records); a third of the rows are whole numbers
+        as_object = True
+        batches = [np.where((np.arange(len(b)) % 3 == int(rng.integers(0, 3)))[:, None], np.round(b), b) for b in batches]
+        ctx.count("histories_as_object_arrays")
     labels = None
     if as_frames:
         ctx.count("histories_as_labelled_frames")
@@ -122,7 +173,7 @@ def run_case(case, ctx):
             ctx.count("histories_with_repeated_row_labels")
         else:
             labels = [np.array(["r%d" % v for v in rng.permutation(len(b))], dtype=object) for b in batches]
-    orig = run(name, params, batches, key, labels)
+    orig = run(name, params, batches, key, labels, as_object)
     drift = any(o["state"] == "drift" for o in orig)
     if name == "NNDVI":
         ctx.count("nndvi_unequal_size_pairs", sum(1 for a, b in zip(batches, batches[1:]) if len(a) != len(b)))
@@ -134,7 +185,7 @@ def run_case(case, ctx):
             perm = run(name, params, pb, key, [l[o] for l, o in zip(labels, orders)])
         else:
             pb = [permute(b, how, rng) for b in batches]
-            perm = run(name, params, pb, key)
+            perm = run(name, params, pb, key, None, as_object)
         ctx.count("permuted_runs_compared")
         parted = False
         for i, (a, b) in enumerate(zip(orig, perm)):
